@@ -61,8 +61,10 @@ t_COLON = r':'
 
 def t_NEWLINE(t):
     r"""\r\n|\n|;"""
-    if t.value == ';' or t.lexer.paren_count == 0:
+    if t.value != ';':
         t.lexer.lineno += 1
+
+    if t.value == ';' or t.lexer.paren_count == 0:
         return t
     else:
         # ignore newlines inside of parens, braces and brackets
